@@ -13,7 +13,7 @@ T = {
  "C03": ("model_checking", "the four decode paths (DecodeBox, DecodeBoxSR, DecodeFile, DecodeFileSR incl. lazy mdat) agree on error/no error, structure and re-encoded bytes for every registered box type x body lengths, symbolic body, and for whole files", "z3"),
  "C04": ("model_checking", "untrusted input: no panic, no allocation or step count beyond a budget linear in the input length while decoding + Info + encoding a box with exact or symbolic (lying) size fields, every registered type; panic/step/allocation monitors inside the symbolic executor, allocation counterexamples re-measured natively", "z3"),
  "C05": ("model_checking", "fragment building API: full samples, metadata-only samples with separately written data (lazy variants) and sample intervals, single- and multi-track, several fragments per segment, with/without trun optimisation, both encoders, extra boxes between fragments: encoding and decoding together with the init returns per track and in order the same bytes, size, duration, flags, composition offset and decode time; symbolic metadata and payload, bounded sample counts", "z3"),
- "C06": ("model_checking", "encrypt (cenc/cbcs, AVC and AAC, IV 8/16, NAL sizes around the thresholds, extra boxes in traf) then decrypt restores every sample byte and all metadata; AES-128 is an uninterpreted permutation with D(E(x))=x, so the result holds for every key; init and media decoded jointly and separately", "cvc5"),
+ "C06": ("model_checking", "encrypt (cenc for AVC / HEVC / AAC, cbcs for AAC, IV 8/16, NAL sizes around the thresholds, extra boxes in traf) then decrypt restores every sample byte and all metadata; AES-128 is an uninterpreted permutation with D(E(x))=x, so the result holds for every key; init and media decoded jointly and separately", "cvc5"),
  "C07": ("model_checking", "the encrypted form is well-formed: sub-sample entries partition each sample, NAL length/header and non-video NAL units stay clear, protected ranges are whole blocks, per-sample IVs advance by the blocks used, protected bytes equal a reference AES-CTR / CBC run (AES uninterpreted), saio/saiz describe senc; plus the clear/protected ranges for every NAL size 1..40 and around 96+16 / 65535", "cvc5"),
  "C08": ("model_checking", "lazy-mdat decode of a progressive file gives the same tree, sizes and positions as full decode; ReadData/CopyData/CopySampleData over symbolic byte and sample ranges (ranges ending at the last byte, spanning chunks, work buffers of 0/1/2/5 bytes) return the same bytes in both modes; a lazily decoded mdat encodes exactly its header", "z3"),
  "C09": ("model_checking", "every sample-table query (stts/ctts/stsc/stsz/stco/co64/stss: decode time, duration, sample at time, composition offset, sizes, sync, chunk of sample, chunk contents/offsets, containing chunks, byte ranges, per-interval metadata) equals the naive per-sample expansion for every sample number and interval; symbolic table entries, bounded entry counts", "z3"),
@@ -57,7 +57,7 @@ m = {
               "kind_free_text": "own SSA->SMT-LIB2 bounded symbolic executor for Go (go/ssa front end, z3 / cvc5 back ends, native replay of every counterexample)"}],
  "checks": checks,
  "not_applicable": [],
- "notes": "fix: commits in /repo (genuine defects found by these checks) are listed in /verif/known_findings.json with status fixed; entries with status known are reported as KNOWN-FINDING lines. Parts of properties outside the bounds (e.g. HEVC P/B slice syntax in C15, cbcs video in C06/C07) are stated in DESIGN.md section 3 and in each evidence file.",
+ "notes": "fix: commits in /repo (genuine defects found by these checks) are listed in /verif/known_findings.json with status fixed; entries with status known are reported as KNOWN-FINDING lines. Parts of properties outside the bounds (e.g. HEVC P/B slice syntax in C15, cbcs on video in C06/C07) are stated in DESIGN.md section 3 and in each evidence file.",
 }
 json.dump(m, open('/verif/MANIFEST.json', 'w'), indent=1)
 print("checks:", len(checks))
